@@ -5,7 +5,7 @@ import json
 from lib import *
 from graphs import *
 
-THEOREMS = ["Parmcb.C10." + t for t in ["c10_strip_newline", "c10_strip_no_newline", "c10_roundtrip", "c10_undeclared",
+THEOREMS = ["Parmcb.C10." + t for t in ["c10_strip_newline", "c10_strip_no_newline", "c10_roundtrip", "c10_undeclared", "c10_undeclared_read",
             "c10_has_loops", "c10_has_non_positive", "c10_has_multiple", "c10_pinned_strip_counterexample"]]
 
 def gen_text(r, malformed=False):
